@@ -7,12 +7,13 @@ from expr import Lit3, Lit4, Dense, Scal, Op, Get
 PID = "C18"
 LIB = ("ShapeMismatch", "RankMismatch", "IncompatibleTypes", "InvalidArguments", "NotImplementedError")
 
-def T(rng, N, rmax=2, dtype=None):
+RMAX = [2]       # rank-one operands (RMAX = 1) un-hide slips that the constructor's rank check would otherwise catch
+def T(rng, N, rmax=None, dtype=None):
     import torch
-    return history.rand_tt(rng, dtype or torch.float64, N=list(N), rmax=rmax)
-def TM(rng, M, N, rmax=2):
+    return history.rand_tt(rng, dtype or torch.float64, N=list(N), rmax=rmax or RMAX[0])
+def TM(rng, M, N, rmax=None):
     import torch
-    return history.rand_tt(rng, torch.float64, ttm=True, N=list(N), M=list(M), rmax=rmax)
+    return history.rand_tt(rng, torch.float64, ttm=True, N=list(N), M=list(M), rmax=rmax or RMAX[0])
 
 def direct_cases(rng):
     """(entry point, class of incompatibility, documented?, thunk). documented = listed under 'Raises' of the entry point"""
@@ -78,6 +79,13 @@ def direct_cases(rng):
         add("permute", "not a TT", True, lambda: torchtt.permute(torch.ones(2, 2), [1, 0]))
         add("reshape", "element count mismatch", True, lambda x=x: torchtt.reshape(x, [int(np.prod(x.N)) + 1]))
         add("reshape (TTM)", "element count mismatch", True, lambda A=A: torchtt.reshape(A, [(int(np.prod(A.M)) + 1, int(np.prod(A.N)))]))
+        A43 = TM(rng, [4, 3], [4, 3])
+        add("reshape (TTM)", "rows traded against columns (same total number of entries)", True, lambda A=A43: torchtt.reshape(A, [(2, 2), (2, 2), (1, 9)]))
+        add("reshape (TTM)", "rows traded against columns (same total number of entries)", True, lambda A=A43: torchtt.reshape(A, [(2, 8), (3, 3), (2, 1)]))
+        add("TTM @ TT", "right operand has more modes", True, lambda A=A, x=x, N=N: A @ (T(rng, N) ** T(rng, [2])))
+        add("TT @ TTM", "right operand has more modes", True, lambda A=A, x=x, N=N: x @ (TM(rng, N, N) ** TM(rng, [2], [2])))
+        add("TTM @ TTM", "right operand has more modes", True, lambda A=A, N=N: A @ (TM(rng, N, N) ** TM(rng, [2], [2])))
+        add("TTM + TTM", "right operand has more modes", True, lambda A=A, N=N: A + (TM(rng, N, N) ** TM(rng, [2], [2])))
         # operators
         for k in range(d):
             M2 = list(N); M2[k] = N[k] + 1
@@ -127,6 +135,9 @@ def run(tier, seed, replay=None):
     V = common.Verdict(PID)
     ok_make, obl = proofcheck.obligations(PID, V)
     cases = direct_cases(rng)
+    RMAX[0] = 1
+    cases += direct_cases(random.Random(seed + 77))
+    RMAX[0] = 2
     if tier != "quick":
         for s in range(6): cases += direct_cases(random.Random(seed + 1 + s))
     dist, table, samples = {}, {}, []
